@@ -1170,11 +1170,31 @@ def _format_time(a, c):
     t, f = plain(A(a, c, 0)), plain(A(a, c, 1))
     if not is_num(t) or not isinstance(f, str):
         return NOTHING
+    # fractional seconds: <portable format>%.3f / %.6f / %.9f at the end (fixed number of digits)
+    frac_digits = None
+    for spec, nd in (("%.3f", 3), ("%.6f", 6), ("%.9f", 9)):
+        if f.endswith(spec):
+            f, frac_digits = f[:-len(spec)], nd
     if not portable_format(f):
         raise Unspecified("time format outside the portable subset")
-    if isinstance(t, float) or not (0 <= t <= 4 * 10 ** 9):
+    if not (-4 * 10 ** 9 <= t <= 4 * 10 ** 9):
         raise Unspecified("epoch value outside the portable range")
-    return format_time(t, f)
+    if isinstance(t, float):
+        # only instants whose fraction is a multiple of 1/8 s (exact in binary and in nanoseconds): nothing to round
+        import math
+        if t * 8 != math.floor(t * 8):
+            raise Unspecified("fractional epoch value that is not a multiple of 1/8 s")
+        whole = math.floor(t)
+        frac = t - whole
+        text = format_time(int(whole), f)
+    else:
+        whole, frac, text = t, 0.0, format_time(t, f)
+    if frac_digits is not None:
+        nanos = int(round(frac * 10 ** 9))
+        text += "." + ("%09d" % nanos)[:frac_digits]
+    elif frac:
+        pass    # a format without fractional seconds just does not show them
+    return text
 
 
 _DT = re.compile(r"(\d{4})-(\d\d)-(\d\d)[ T](\d\d):(\d\d):(\d\d)$")
